@@ -215,6 +215,11 @@ where
         .config()
         .handshake_timeout
         .unwrap_or(Duration::from_secs(15));
+      // One deadline for the whole handshake: a peer that drips a byte just inside every
+      // read timeout must not be able to hold the connection (and its slot) forever.
+      let hs_deadline = self
+        .handshake_deadline
+        .unwrap_or_else(|| TokioInstant::now() + hs_timeout);
 
       'handshake: loop {
         if self.zmtp_engine.phase == ZmtpPhase::Data
@@ -224,8 +229,8 @@ where
           break 'handshake;
         }
 
-        let read_result = tokio::time::timeout(
-          hs_timeout,
+        let read_result = tokio::time::timeout_at(
+          hs_deadline,
           hs_read_half.read_buf(&mut self.handshake_read_buf),
         )
         .await;
